@@ -267,6 +267,9 @@ func runWatched(eng Engine, plan *Plan, out *workerOut) *Result {
 		buf := make([]byte, 1<<22)
 		n := runtime.Stack(buf, true)
 		site := hangSite(string(buf[:n]))
+		if d := os.Getenv("VERIF_HANGDUMP"); d != "" {
+			_ = os.WriteFile(fmt.Sprintf("%s.%d", d, plan.Seed), buf[:n], 0o644)
+		}
 		if site == "unknown" {
 			// nothing of the system is stuck on a lock: the run is merely slow (loaded machine): not a verdict
 			out.HarnessErr = fmt.Sprintf("seed %d: watchdog: run did not finish within %v, no goroutine of the system blocked on a lock", plan.Seed, *fHang)
@@ -276,9 +279,6 @@ func runWatched(eng Engine, plan *Plan, out *workerOut) *Result {
 				_ = os.WriteFile(*fOut, b, 0o644)
 			}
 			os.Exit(0)
-		}
-		if d := os.Getenv("VERIF_HANGDUMP"); d != "" {
-			_ = os.WriteFile(fmt.Sprintf("%s.%d", d, plan.Seed), buf[:n], 0o644)
 		}
 		out.Violation = &Violation{Prop: plan.Prop, Clause: "hang", Class: "hang/" + site, Step: -1,
 			Detail: fmt.Sprintf("run did not finish within %v of real time; a goroutine of the system is blocked on a lock at %s", *fHang, site)}
